@@ -529,6 +529,9 @@ pub extern "C" fn tsrun_keys(
             PropertyKey::Index(i) => Some(str_to_c_string(&i.to_string())),
             PropertyKey::Symbol(_) => None,
         })
+        // A key with an interior NUL byte has no C string form: it is left out (like symbol
+        // keys) instead of being reported as a NULL entry
+        .filter(|p| !p.is_null())
         .collect();
 
     let count = keys.len();
